@@ -248,6 +248,27 @@ fn check_dataitem(cfg: &Cfg, bars: &[Bar], out: &mut JobOut) {
     }
 }
 
+/// DataItem values obtained through serde (no builder validation: any five numbers) vs another implementor
+/// carrying the same numbers
+fn check_dataitem_wire(cfg: &Cfg, bars: &[Bar], out: &mut JobOut) {
+    let items: Vec<DataItem> = match bars.iter().map(|b| bincode::serialize(&(b.o, b.h, b.l, b.c, b.v)).ok().and_then(|bytes| bincode::deserialize::<DataItem>(&bytes).ok())).collect::<Option<Vec<DataItem>>>() {
+        Some(v) => v,
+        None => return,
+    };
+    let len = bars.len();
+    let a = run_all(cfg, |s, i| s.next_di(&items[i]), len);
+    let b = run_all(cfg, |s, i| s.next_b(&bars[i]), len);
+    out.stats.traces += 1;
+    out.stats.transitions += 2 * len as u64;
+    if let (Ok(a), Ok(b)) = (a, b) {
+        out.stats.evaluations += 1;
+        if let Some(i) = first_diff(&a, &b) {
+            let ops: Vec<Op> = bars[..=i].iter().map(|x| Op::B(*x)).collect();
+            out.fail(Violation::new(PROP, cfg, &ops, "dataitem-differs").obs(out2s(&a[i])).exp(out2s(&b[i])).det("a deserialized DataItem gives a different output than another implementor carrying the same five numbers".into()));
+        }
+    }
+}
+
 /// Static side: build and run /verif/surface (user types implementing only the
 /// price traits an indicator is documented to need).
 fn surface(res: &mut CheckResult) {
@@ -404,6 +425,29 @@ pub fn run(ctx: &Ctx) -> CheckResult {
         });
         res.absorb(merge_jobs(outs));
     }
+    // DataItems that arrive through serde carry any five numbers (open / close outside [low, high], inverted
+    // ranges): still "the same numbers" as a user type's
+    if !res.out.failed() {
+        let free = b_free();
+        let d3 = if th { 4 } else { 3 };
+        let outs = par_run(ctx, &cfgs, |_, cfg| {
+            let mut out = JobOut::default();
+            let mut v = vec![];
+            for_each_seq_exact(free.len(), d3, |seq| {
+                v.clear();
+                v.extend(seq.iter().enumerate().map(|(i, &a)| {
+                    let b = free[a as usize];
+                    // opens outside the bar's range, on either side
+                    Bar { o: if i % 2 == 0 { b.h + 1.5 } else { b.l - 2.5 }, ..b }
+                }));
+                out.stats.states += 1;
+                check_dataitem_wire(cfg, &v, &mut out);
+                !out.failed()
+            });
+            out
+        });
+        res.absorb(merge_jobs(outs));
+    }
     // quiet closes (fast and slow averages within 1e-5 of each other): "within 1e-12 relative" is
     // demanding when the output itself is tiny
     if !res.out.failed() {
@@ -478,7 +522,7 @@ pub fn run(ctx: &Ctx) -> CheckResult {
     }
     res.extra.insert("documented_fields".into(), json!(ALL_KINDS.iter().map(|k| (k.name().to_string(), format!("{:?}", documented(*k)))).collect::<std::collections::BTreeMap<_, _>>()));
     res.rule = "case = (configuration, bar sequence): outputs of Next<&T> on bars whose five fields vary independently compared (1e-12 relative) with (i) Next<f64> on the documented field, (iii) the same sequence with every undocumented field replaced (all at once finite / NaN, and one at a time), (iv) a second implementor storing integers, and DataItem on valid bars; (ii) one-price bars vs scalar path; non-trivial = perturbation comparisons".into();
-    res.bounds = format!("all 22 indicators, periods {{1,3}}; all 10^{depth} sequences over B_free (incl. zero and negative closes, highs, volumes); three 160-bar streams of quiet closes, a triangle wave with legs of 2n+3 bars and a counter-move on every bar k*n+1 (periods 2, 5, 17, 20, 33 and the defaults) (100*(1 +- a few 1e-6)) and one 30000 / 200000-bar stream of two-decimal prices with flat stretches for every close/low/high-reading indicator incl. the documented defaults; one-price: all 5^{} scalar sequences over {{1,2.5,0.1,7,-3}} over {{1, 0.75, 0.75+1ulp, 2e-17, 3e-17}} and (not KC) over {{1e307, 9e307, 3e307, 5e307, 2e307}} for FAST_STOCH/SLOW_STOCH/TR/ATR/KC (multipliers 2, -2, 0) n in {{1,2,3,5}}, and every assignment of {{scalar, one-price bar}} to the positions of all streams two steps shorter (both paths mixed on one instance); DataItem: all 12^{} sequences of valid bars (incl. open/close within 1e-9 of an extreme)", if th { 7 } else { 6 }, if th { 5 } else { 4 });
+    res.bounds = format!("all 22 indicators, periods {{1,3}}; all 10^{depth} sequences over B_free (incl. zero and negative closes, highs, volumes); three 160-bar streams of quiet closes, a triangle wave with legs of 2n+3 bars and a counter-move on every bar k*n+1 (periods 2, 5, 17, 20, 33 and the defaults) (100*(1 +- a few 1e-6)) and one 30000 / 200000-bar stream of two-decimal prices with flat stretches for every close/low/high-reading indicator incl. the documented defaults; one-price: all 5^{} scalar sequences over {{1,2.5,0.1,7,-3}} over {{1, 0.75, 0.75+1ulp, 2e-17, 3e-17}} and (not KC) over {{1e307, 9e307, 3e307, 5e307, 2e307}} for FAST_STOCH/SLOW_STOCH/TR/ATR/KC (multipliers 2, -2, 0) n in {{1,2,3,5}}, and every assignment of {{scalar, one-price bar}} to the positions of all streams two steps shorter (both paths mixed on one instance); DataItem: all 12^{} sequences of valid bars (incl. open/close within 1e-9 of an extreme), and all sequences of length 3/4 over B_free with opens outside the range for DataItems obtained by deserialization", if th { 7 } else { 6 }, if th { 5 } else { 4 });
     res.assumptions = vec!["minimal-trait user types (CloseOnly, Hlc, ...) are compiled and run by the separate /verif/surface crate as part of this check".into()];
     res
 }
